@@ -844,6 +844,14 @@ impl CompactThetaSketch {
             num_entries |= (entry_count_byte as usize) << ((i as usize) << 3);
         }
 
+        // The compressed form is only written for sketches with entries: an image flagged empty
+        // must not carry any (nor a theta below 1.0).
+        if empty && (num_entries != 0 || theta != MAX_THETA) {
+            return Err(Error::deserial(
+                "corrupted: image flagged empty holds entries or a theta below 1.0",
+            ));
+        }
+
         // Nothing is allocated before the packed deltas are known to be present.
         let num_blocks = (num_entries / BLOCK_WIDTH) as u64;
         let tail_bits = (num_entries % BLOCK_WIDTH) as u64 * entry_bits as u64;
